@@ -4,7 +4,7 @@
 WT=$1; shift
 cd $WT || exit 2
 for P in "$@"; do
-  OUT=/tmp/wt2/out/$P
+  OUT=${OUTBASE:-/tmp/wt2/out}/$P
   for k in 1 2 3; do
     [ -f $OUT/change$k.diff ] || continue
     demo=$(ls $OUT/demo$k.py 2>/dev/null | head -1)
